@@ -331,7 +331,7 @@ def run(ctx, rep):
         "must hold a non-null fact); keys of the table fold to known element names; every value appended to a warning list is a "
         "(declared EvaluationWarning member, str, Node) triple; the walk visits all children unconditionally; every declared "
         "warning is emitted somewhere; the three threshold guards are evaluated at t-1, t, t+1")
-    rep.rules_run = ["R1", "R2", "R3", "R4", "R5", "R6"]
+    rep.rules_run = ["R1", "R2", "R3", "R4", "R5", "R6", "R7"]
     rep.assumptions += ["NOT decided: that the emitted set equals the documented recommendations on every tree (behavioural)",
                         "word counting relies on normalize()/str.split (library semantics, C20)"]
     only = getattr(rep, "only", None)
@@ -343,3 +343,9 @@ def run(ctx, rep):
         rule_r4(ctx, rep)
     if only in (None, "R5", "R6"):
         rule_r5_r6(ctx, rep)
+    if only in (None, "R7"):
+        # the warnings are a function of the tree alone: nothing on the evaluation slice keeps state between calls
+        from ..memo import check_slice
+        from ..valslice import reachable
+        entries = [ctx.prog.func(q) for q in ("metapype.eml.evaluate.tree", "metapype.eml.evaluate.node") if q in ctx.prog.funcs]
+        check_slice(ctx, rep, "R7", list(reachable(ctx, entries)), "evaluation")
